@@ -609,3 +609,143 @@ RS.explanation += (' Added later: the readers of a shared pipe take one byte per
                    'multi-byte item); every descriptor the shell writes to is traced across helpers to a standard descriptor or a temporary '
                    'file, never to the write end of a pipe created by the same process with no forked reader (R8); the here-document '
                    'descriptor handed to the command is the filled temporary file (R9).')
+
+
+# ---------------------------------------------------------------------------------------
+# C14.R10 - the poll contract of the simulated select(): a process blocked on a pipe is woken by the pipe's WakerSet, which
+# wake_all() EMPTIES. Being woken is not being ready (a writer needs PIPE_BUF bytes of room, the reader may have taken fewer),
+# so every poll that ends in Pending must put the waker back into the set of every watched descriptor - on that poll.
+VSEL_MOD = 'yash_env::system::r#virtual::select::'
+_WATCH = (('reader', ['*::register_reader_waker'], ['*::is_ready_for_reading']),
+          ('writer', ['*::register_writer_waker'], ['*::is_ready_for_writing']))
+_RESUME_WAKER = ['*::Process::wake_on_resumption']
+_CTX_WAKER = [Q.re.compile(r'^core::task::wake::Context(::<[^>]*>)?::waker$')]
+_ITER_NEXT = ['*::Iterator::next']
+_SET_EMPTIERS = [Q.re.compile(r'::(drain|clear)$'), 'core::mem::take', 'core::mem::replace']
+
+
+def _iterated_place(body, du, operand):
+    """The place a loop's iterator was made from: back through `&mut iter`, moves and the adapter chain
+    (`into_iter(cloned(iter(&SET)))` -> SET). None when the chain does not end in a place."""
+    for _ in range(16):
+        o = du.origin(operand)
+        if o['k'] == 'call' and o['t']['a']:
+            operand = o['t']['a'][0]
+        elif o['k'] == 'ref':
+            pl = o['pl'] if Q.is_plain(o['pl']) else du.deref_origin(o['pl'])
+            if not Q.is_plain(pl):
+                return pl
+            operand = {'cp': pl}
+        elif o['k'] == 'place':
+            return du.deref_origin(o['pl'])
+        elif o['k'] == 'arg':
+            return {'l': o['l']}
+        else:
+            return None
+    return None
+
+
+def _enclosing_loop(F, body, du, blk, t):
+    """(header block of the innermost `next()`-driven loop around the call t in blk, its exit edges, iterated place) or None."""
+    dom = body.dominators()
+    after = body.reachable(t['to']) if t.get('to') is not None else set()
+    heads = [(nb, nt) for nb, nt in Q.find_calls(body, _ITER_NEXT) if nb != blk and body.dominates(nb, blk) and nb in after]
+    if not heads:
+        return None
+    nb, nt = max(heads, key=lambda h: len(dom[h[0]]))
+    # the switch on the Option that next() returned: its None edge leaves the loop
+    sw = nt.get('to')
+    for _ in range(4):
+        if sw is None or body.term(sw)['k'] == 'switch':
+            break
+        s = body.succ(sw)
+        sw = s[0] if len(s) == 1 else None
+    exits = set()
+    if sw is not None and body.term(sw)['k'] == 'switch':
+        ec = Q.edge_condition(F, body, du, sw)
+        if ec is not None and ec[0]['k'] == 'discr' and ec[0]['pl'].get('l') == nt['dest']['l']:
+            exits = {(sw, tgt) for tgt, labs in ec[1].items() if ('variant', 'None') in labs and blk not in body.reachable(tgt, removed={nb})}
+    return nb, exits, _iterated_place(body, du, nt['a'][0])
+
+
+@RS.rule('C14.R10', 'K-PASS', 'simulated select(): every poll that returns Pending has registered the current waker with every watched '
+         'descriptor on that poll (the pipe empties its waker set when it wakes, and woken is not ready)')
+def r10(cx):
+    import json as _json
+    F = cx.F
+    # premise: waking empties the set, so a registration made on an earlier poll is gone after the first wake-up
+    wk = [b for fn, b in F.bodies.items() if b.root == 'yash_env::waker::set::WakerSet::wake_all']
+    cx.require(wk, 'yash_env::waker::set::WakerSet::wake_all not found')
+    emptied = [(b, t) for b in wk for _, t in Q.find_calls(b, _SET_EMPTIERS)]
+    cx.require(emptied, 'WakerSet::wake_all no longer empties the set (no drain/clear/take): the clause "re-register on every Pending poll" '
+               'has to be re-derived from the new wake-up protocol')
+    cx.site('premise: %s empties the set with %s at %s' % (wk[0].root, pp.callee(emptied[0][1]).split('::')[-1], emptied[0][0].loc(emptied[0][1])))
+    polls = [b for fn, b in sorted(F.bodies.items())
+             if fn.startswith(VSEL_MOD) and Q.re.search(r'\bSelect for .*VirtualSystem>::select\b|Future>::poll$', b.root if '{closure' in fn else fn)
+             and b.locals[0]['ty'].startswith('core::task::poll::Poll<')
+             and any('core::task::wake::Context' in b.locals[i]['ty'] for i in range(1, b.argc + 1))]
+    cx.require(polls, 'no poll function (returns Poll, takes a Context) found in %s*' % VSEL_MOD)
+    n_pending = 0
+    for raw in polls:
+        body = F.inlined(raw)
+        cx.fn(raw.fn)
+        du = Q.DefUse(body)
+        live = body.live_blocks()
+        pend = [(b, s) for b, j, s in Q.find_aggregates(body, 'core::task::poll::Poll', 'Pending')
+                if s['lhs']['l'] == 0 and not s['lhs'].get('p') and b in live]
+        n_pending += len(pend)
+        resume = {b for b, _ in Q.find_calls(body, _RESUME_WAKER)}
+        ctxw = {b for b, _ in Q.find_calls(body, _CTX_WAKER)}
+        watch = []
+        for kind, reg_pats, ready_pats in _WATCH:
+            ready_sets = set()
+            ready = Q.find_calls(body, ready_pats)
+            cx.require(ready, 'the readiness test %s is not called in %s: the anchor of this rule is gone' % (ready_pats[0][3:], raw.fn))
+            for b, t in ready:
+                lp = _enclosing_loop(F, body, du, b, t)
+                if lp is not None and lp[2] is not None:
+                    ready_sets.add(_json.dumps(lp[2], sort_keys=True))
+            cx.require(ready_sets, 'the set of descriptors tested with %s could not be identified in %s' % (ready_pats[0][3:], raw.fn))
+            through, exits, other = set(), set(), []
+            for b, t in Q.find_calls(body, reg_pats):
+                lp = _enclosing_loop(F, body, du, b, t)
+                key = _json.dumps(lp[2], sort_keys=True) if lp is not None and lp[2] is not None else None
+                if lp is not None and key not in ready_sets:
+                    other.append((b, t))        # registers for some other collection than the one that is waited for
+                    continue
+                through.add(b)
+                if lp is not None:
+                    exits |= lp[1]
+            watch.append((kind, through, exits, other))
+        for pb, ps in pend:
+            facts = []
+            p = Q.must_pass(body, [0], ctxw, goal_blocks={pb})
+            facts.append('current waker %s' % ('taken' if p is None else 'NOT taken'))
+            if p is not None:
+                cx.violation(raw.root, 'pending-without-current-waker', 'select() can return Poll::Pending without having taken the waker of '
+                             'the current poll from the Context: the waker of an earlier poll was consumed by the wake-up that caused this '
+                             'poll, so nothing can wake the process again', loc=body.loc(ps), path=Q.render_path(body, p))
+            suspended = Q.must_pass(body, [0], resume, goal_blocks={pb}) is None
+            if suspended:
+                facts.append('process stopped: waits for resumption only')
+            for kind, through, exits, other in watch:
+                if suspended:
+                    continue
+                p = Q.must_pass(body, [0], through | resume, goal_blocks={pb}, removed_edges=exits)
+                facts.append('%s wakers %s' % (kind, 're-registered on every path' if p is None else 'NOT re-registered on every path'))
+                if p is not None:
+                    cx.violation(raw.root, 'pending-without-registration:%s' % kind, 'select() can return Poll::Pending on a path that does not '
+                                 'register its waker with the watched %ss on this poll%s: the pipe drops all registered wakers when it wakes '
+                                 'them (WakerSet::wake_all), and a woken process may find its descriptor still not ready (a writer needs '
+                                 'PIPE_BUF bytes of room, the reader may have taken fewer) - after such a poll nobody wakes it again, a writer '
+                                 'blocked on a full pipe sleeps for ever and the output beyond the pipe capacity never arrives'
+                                 % (kind, ' (the registration found iterates another collection than the one tested for readiness)' if other else ''),
+                                 loc=body.loc(ps), path=Q.render_path(body, p))
+            cx.site('%s: return Poll::Pending at %s: %s' % (raw.fn, body.loc(ps), '; '.join(facts)))
+    cx.require(n_pending >= 1, 'the simulated select() never returns Poll::Pending: the anchor of this rule is gone')
+
+
+RS.explanation += (' Added later: in the poll function of the simulated select() every path to a Poll::Pending return takes the current waker '
+                   'and (unless the process is stopped and waits for resumption) passes the registration of that waker with every watched '
+                   'reader and writer descriptor, where only the end-of-iteration edge of the loop over the watched set may bypass the '
+                   'registration call - no state kept from an earlier poll may skip it, because WakerSet::wake_all empties the set (R10).')
